@@ -1,21 +1,22 @@
 #!/bin/bash
 # usage: tools/seeded.sh <agent-dir> <n> <name> <check ids...>
-# Confirms a seeded change in the scratch worktree /tmp/mw: applies <agent-dir>/seeded/patch<n>.diff, runs the repository's test
-# suite, the agent's demonstration with and without the patch, then our checks against the patched tree (REPO=/tmp/mw).
+# Confirms a seeded change in the scratch worktree $MW (env MW, default /tmp/mw): applies <agent-dir>/seeded/patch<n>.diff, runs the repository's test
+# suite, the agent's demonstration with and without the patch, then our checks against the patched tree (REPO=$MW).
 ad="$1"; n="$2"; name="$3"; shift 3
 patch="$ad/seeded/patch$n.diff"; demo="$ad/seeded/demo$n"
-cd /tmp/mw && git checkout -q -- . && git clean -qfd -e target && git reset -q --hard "$(git -C /repo rev-parse HEAD)"
+MW="${MW:-/tmp/mw}"
+cd $MW && git checkout -q -- . && git clean -qfd -e target && git reset -q --hard "$(git -C /repo rev-parse HEAD)"
 echo "== $name: demo WITHOUT patch"
-rm -rf /tmp/mw/seeded; mkdir -p /tmp/mw/seeded; cp -r "$demo" /tmp/mw/seeded/ ; 
-( cd /tmp/mw && sed -i "s#/tmp/agents[0-9]*/[A-Za-z0-9_]*#/tmp/mw#g" seeded/demo$n/run.sh; CARGO_NET_OFFLINE=true timeout 900 bash seeded/demo$n/run.sh >/tmp/mw/demo_clean.log 2>&1; echo "   demo exit (clean tree): $?" )
+rm -rf $MW/seeded; mkdir -p $MW/seeded; cp -r "$demo" $MW/seeded/ ; 
+( cd $MW && sed -i "s#/tmp/agents[0-9]*/[A-Za-z0-9_]*#$MW#g" seeded/demo$n/run.sh; CARGO_NET_OFFLINE=true timeout 900 bash seeded/demo$n/run.sh >$MW/demo_clean.log 2>&1; echo "   demo exit (clean tree): $?" )
 git apply "$patch" || { echo "PATCH DOES NOT APPLY"; exit 2; }
 echo "== $name: test suite WITH patch"
-( cd /tmp/mw && CARGO_NET_OFFLINE=true timeout 1200 cargo test --workspace --no-fail-fast --offline 2>&1 | grep -E "^test result|FAILED|failed|error(\[|:)" | head -12 )
+( cd $MW && CARGO_NET_OFFLINE=true timeout 1200 cargo test --workspace --no-fail-fast --offline 2>&1 | grep -E "^test result|FAILED|failed|error(\[|:)" | head -12 )
 echo "== $name: demo WITH patch"
-( cd /tmp/mw && CARGO_NET_OFFLINE=true timeout 900 bash seeded/demo$n/run.sh >/tmp/mw/demo_patched.log 2>&1; echo "   demo exit (patched tree): $?" )
-git -C /tmp/mw status --short | grep -v seeded | head -5
+( cd $MW && CARGO_NET_OFFLINE=true timeout 900 bash seeded/demo$n/run.sh >$MW/demo_patched.log 2>&1; echo "   demo exit (patched tree): $?" )
+git -C $MW status --short | grep -v seeded | head -5
 for id in "$@"; do
-  out=$(cd /verif && REPO=/tmp/mw ./check "$id" quick 2>&1); rc=$?
+  out=$(cd /verif && REPO=$MW ./check "$id" quick 2>&1); rc=$?
   echo "== $name: check $id -> exit $rc; $(echo "$out" | grep '^mdsim: violation' | head -3 | cut -c1-260)"
 done
-cd /tmp/mw && git checkout -q -- . && git clean -qfd -e target
+cd $MW && git checkout -q -- . && git clean -qfd -e target
